@@ -396,6 +396,12 @@ class PeerConnection:
         return f"<PeerConnection({self.ident}, {self.node_name}>"
 
     def __dispatch_message(self, msg: _AnyMessageType):
+        if self.state in (PEER_CLOSING, PEER_CLOSED) and not self.host_identity:
+            # rejected CER/CEA: the capabilities exchange never completed
+            self.logger.warning(
+                f"connection is closing without a completed CE, ignoring "
+                f"message")
+            return
         if self.state == PEER_CONNECTED:
             if msg.header.command_code != constants.CMD_CAPABILITIES_EXCHANGE:
                 self.logger.warning(
